@@ -77,6 +77,12 @@ def cases(tier, rng):
             if tmc:
                 # the Nachtmann variable must stay inside the grid: choose x away from the lower end
                 p["x"] = float(max(p["x"], min(0.5, g["xgrid"][1] * 2.0)))
+        if i % 4 == 3:
+            # a twin of a bulk point with x and y exchanged at the same Q2 (kinematics that collide in a key built from the values alone)
+            for p in list(pts):
+                if p["ycls"] == "bulk" and g["xgrid"][1] * 2.0 <= p["y"] <= 0.8 and p["x"] <= 0.98:
+                    pts.append(dict(p, x=p["y"], y=p["x"], cls="swapped", ycls="bulk"))
+                    break
         out.append(dict(id=f"c11-{i}", kind=kind, heavy=heavy, grid=g, points=pts, prerun=bool(i % 3 == 1), **cfg))
     return out
 
